@@ -117,6 +117,31 @@ def run(rep, tier, seed, proof_broken=False):
                             spell_fail.append(dict(case=desc + " re-spelled (%s escapes)" % mode, canonical=v, respelled=v2, codes=codes2,
                                                    inventory_text=b.decode("utf-8", "replace")[:1500]))
                 lab.remove(name)
+        # 4. inventories in the directories of earlier versions: consistent ones, and one edit of one of them
+        for bi in range(budget["bases"]):
+            if time.time() > t_end:
+                break
+            base = invgen.Base(rng, hostile=(bi % 3 == 1))
+            for kind in invgen.CROSS:
+                ce = invgen.cross_edit(rng, base, kind)
+                if ce is None:
+                    continue
+                olds, side, desc = ce
+                name = "x%d_%s" % (bi, kind)
+                dst = os.path.join(lab.root, name)
+                invgen.materialise(dst, base.inv, base.pool, base.spec)
+                invgen.write_old_inventories(dst, olds, side, base.alg)
+                v, codes = verdict(lab, name)
+                o = oracle(dst)
+                ov = "invalid" if o else "valid"
+                rep.evaluations += 1
+                rep.count("cross:%s:%s" % (kind, v))
+                rep.classes.add("%s|%s|%s" % (kind, ",".join(codes), ov))
+                if o and o[0].startswith("ORACLE-CRASH"):
+                    rep.count("oracle-crash:" + kind)
+                elif v != ov:
+                    impl_vs_oracle.append(dict(case=desc, rocfl=v, codes=codes, oracle=o[:3], inventory=base.inv, earlier=olds))
+                lab.remove(name)
     finally:
         lab.close()
     # T: the Lean model's verdict on the modelled edits
